@@ -42,7 +42,7 @@ def expect_triplets(ctx, out, expected, fn_name, what, extra=None):
                       observed=out.value, expected=sorted(expected.elements())[:20], extra=extra)
         return False
     ctx.count("triplets_compared", sum(expected.values()))
-    d = O.diff_triplets(got, expected)
+    d = O.diff_triplets(got, expected, self_mode=('cross' not in what))
     if d is None:
         return True
     shape, detail = d
